@@ -36,6 +36,7 @@ CONSTANTS
   LazyApply = FALSE
   AllowCompact = FALSE
   ProposeAnywhere = FALSE
+  TargetPreds = {}
 CONSTRAINT Bound
 INVARIANT Judge
 INVARIANT Replay
